@@ -66,19 +66,48 @@ type awReqSpec struct {
 	m, a, p int
 	hflags  int // 1: Hysteria-Auth, 2: Hysteria-CC-RX, 4: Hysteria-Padding
 	cred    string
+	big     int // index into awBigHeaders: a LARGE extra header set (0 = none); optional 6th field "b<k>"
+}
+
+// awBigHeaders: extra request headers far larger than an auth request needs, all well below net/http's default
+// limit of 1 MiB per header section (append-only: corpus files index it): {count, bytes per value, name}
+var awBigHeaders = []struct {
+	n, size int
+	name    string
+}{
+	{0, 0, ""},
+	{1, 3 * 1024, "cookie"},
+	{1, 5000, "x-big"},
+	{1, 20 * 1024, "cookie"},
+	{1, 100 * 1024, "x-big"},
+	{40, 120, "x-small"},  // many small headers summing past 4 KiB
+	{160, 110, "x-small"}, // ... and past 16 KiB
+	{1, 4200, "x-big"},
+	{1, 6 * 1024, "cookie"},
 }
 
 func (s awReqSpec) String() string {
+	if s.big != 0 {
+		return fmt.Sprintf("%d/%d/%d/%d/%s/b%d", s.m, s.a, s.p, s.hflags, awTok(s.cred), s.big)
+	}
 	return fmt.Sprintf("%d/%d/%d/%d/%s", s.m, s.a, s.p, s.hflags, awTok(s.cred))
 }
 
 func awParseReqSpec(f string) (awReqSpec, bool) {
 	p := strings.Split(f, "/")
-	if len(p) != 5 {
+	if len(p) != 5 && len(p) != 6 {
 		return awReqSpec{}, false
 	}
 	var s awReqSpec
 	var err error
+	if len(p) == 6 {
+		if len(p[5]) < 2 || p[5][0] != 'b' {
+			return s, false
+		}
+		if s.big, err = strconv.Atoi(p[5][1:]); err != nil || s.big < 1 || s.big >= len(awBigHeaders) {
+			return s, false
+		}
+	}
 	if s.m, err = strconv.Atoi(p[0]); err != nil || s.m < 0 || s.m >= len(awMethods) {
 		return s, false
 	}
@@ -98,7 +127,7 @@ func awParseReqSpec(f string) (awReqSpec, bool) {
 	return s, true
 }
 
-func awAuthSpec(cred string) awReqSpec { return awReqSpec{0, 0, 0, 7, cred} }
+func awAuthSpec(cred string) awReqSpec { return awReqSpec{m: 0, a: 0, p: 0, hflags: 7, cred: cred} }
 
 func (s awReqSpec) headers() [][2]string {
 	var h [][2]string
@@ -110,6 +139,19 @@ func (s awReqSpec) headers() [][2]string {
 	}
 	if s.hflags&4 != 0 {
 		h = append(h, [2]string{"hysteria-padding", strings.Repeat("p", 300)})
+	}
+	if b := awBigHeaders[s.big]; b.n > 0 {
+		for i := 0; i < b.n; i++ {
+			name := b.name
+			if b.n > 1 {
+				name = fmt.Sprintf("%s-%d", b.name, i)
+			}
+			v := make([]byte, b.size)
+			for j := range v {
+				v[j] = "abcdefghijklmnopqrstuvwxyz0123456789"[(i*7+j*13)%36]
+			}
+			h = append(h, [2]string{name, string(v)})
+		}
 	}
 	return h
 }
@@ -606,7 +648,7 @@ func awGenHistory(r *vh.RNG, maxEv int) (string, []string) {
 		case k < 8:
 			s := awReqSpec{m: r.Intn(len(awMethods)), a: r.Intn(len(awAuthorities)), p: r.Intn(len(awPaths)), hflags: r.Intn(8), cred: awCreds[r.Intn(3)]}
 			if r.Bool() { // near miss: exactly one coordinate off
-				s = awReqSpec{0, 0, 0, 7, awCreds[r.Intn(3)]}
+				s = awReqSpec{m: 0, a: 0, p: 0, hflags: 7, cred: awCreds[r.Intn(3)]}
 				switch r.Intn(3) {
 				case 0:
 					s.m = 1 + r.Intn(len(awMethods)-1)
@@ -942,6 +984,15 @@ type masqComp struct {
 
 func (masqComp) Gen(r *vh.RNG, n int, emit func(op string, tags ...string)) {
 	creds := []string{"ok1", "bad", "", "ok2"}
+	// about every fourth request carries a LARGE header set (3 KiB .. 100 KiB, one header or many small ones): every
+	// request below the library's header limit must reach ServeHTTP / the masquerade handler whatever its size
+	big := func(s awReqSpec, tag string) (awReqSpec, []string) {
+		if r.Chance(1, 4) {
+			s.big = 1 + r.Intn(len(awBigHeaders)-1)
+			return s, []string{tag, "bighdr", fmt.Sprintf("bighdr:%d", s.big)}
+		}
+		return s, []string{tag}
+	}
 	for emitted := 0; emitted < n; {
 		emit("reset "+awGenCfg(r), "reset")
 		nconn := 1 + r.Intn(2)
@@ -950,7 +1001,7 @@ func (masqComp) Gen(r *vh.RNG, n int, emit func(op string, tags ...string)) {
 			c := r.Intn(nconn)
 			switch x := r.Intn(16); {
 			case x < 5: // exactly one coordinate off the auth shape
-				s := awReqSpec{0, 0, 0, r.Intn(8), creds[r.Intn(len(creds))]}
+				s := awReqSpec{m: 0, a: 0, p: 0, hflags: r.Intn(8), cred: creds[r.Intn(len(creds))]}
 				tag := ""
 				switch r.Intn(3) {
 				case 0:
@@ -963,19 +1014,23 @@ func (masqComp) Gen(r *vh.RNG, n int, emit func(op string, tags ...string)) {
 					s.p = 1 + r.Intn(len(awPaths)-1)
 					tag = "near:path"
 				}
-				emit(fmt.Sprintf("req %d %s", c, s), tag)
+				s, tags := big(s, tag)
+				emit(fmt.Sprintf("req %d %s", c, s), tags...)
 			case x < 8: // anything
-				s := awReqSpec{r.Intn(len(awMethods)), r.Intn(len(awAuthorities)), r.Intn(len(awPaths)), r.Intn(8), creds[r.Intn(len(creds))]}
-				emit(fmt.Sprintf("req %d %s", c, s), "any")
+				s := awReqSpec{m: r.Intn(len(awMethods)), a: r.Intn(len(awAuthorities)), p: r.Intn(len(awPaths)), hflags: r.Intn(8), cred: creds[r.Intn(len(creds))]}
+				s, tags := big(s, "any")
+				emit(fmt.Sprintf("req %d %s", c, s), tags...)
 			case x < 11: // exact shape, rejected credentials (or none)
-				s := awReqSpec{0, 0, 0, r.Intn(8), []string{"bad", "", "no-ok", "OK1"}[r.Intn(4)]}
+				s := awReqSpec{m: 0, a: 0, p: 0, hflags: r.Intn(8), cred: []string{"bad", "", "no-ok", "OK1"}[r.Intn(4)]}
 				if s.hflags&1 == 0 {
 					s.cred = "bad"
 				}
-				emit(fmt.Sprintf("req %d %s", c, s), "shape:rejected")
+				s, tags := big(s, "shape:rejected")
+				emit(fmt.Sprintf("req %d %s", c, s), tags...)
 			case x < 13: // exact shape, accepted credentials
-				s := awReqSpec{0, 0, 0, 1 | r.Intn(8), creds[r.Intn(2)*3]}
-				emit(fmt.Sprintf("req %d %s", c, s), "shape:accepted")
+				s := awReqSpec{m: 0, a: 0, p: 0, hflags: 1 | r.Intn(8), cred: creds[r.Intn(2)*3]}
+				s, tags := big(s, "shape:accepted")
+				emit(fmt.Sprintf("req %d %s", c, s), tags...)
 			case x < 15:
 				if r.Chance(1, 2) { // a stream and a datagram while the verdict is pending
 					emit(fmt.Sprintf("breq %d %s", c, []string{"ok1", "bad"}[r.Intn(2)]), "pending")
